@@ -762,7 +762,10 @@ def _end_to_end(ctx, seen, k):
                     real = fddmod.FDD_mpe
 
                     def spy(*a, **kw):
-                        handed["sel_freq"] = [float(v) for v in kw["sel_freq"]]
+                        import inspect
+
+                        bound = inspect.signature(real).bind(*a, **kw)  # however the caller passes it (position or keyword)
+                        handed["sel_freq"] = [float(v) for v in bound.arguments["sel_freq"]]
                         return real(*a, **kw)
 
                     st.enter_context(um.patch("pyoma2.functions.fdd.FDD_mpe", spy))
